@@ -83,6 +83,19 @@ ORIGINS = {
     "B": ("http", "b.test", 80),
     "S": ("http", "sub.a.test", 80),
 }
+BASE_ORIGINS = list(ORIGINS)  # the systematic chain enumeration ranges over these
+# origins that differ from another origin of the world in exactly ONE of (scheme, host, port), the other two being equal,
+# including explicit non-default ports shared by both schemes and a port that is the default of only one of the two schemes
+ORIGINS.update(
+    {
+        "Aps": ("https", "a.test", 8080),  # scheme only vs Ap (same explicit port)
+        "Ah443": ("http", "a.test", 443),  # scheme only vs As (port explicit on one side, default on the other)
+        "As80": ("https", "a.test", 80),  # scheme only vs A
+        "Asp": ("https", "a.test", 8443),  # port only vs As / Aps
+        "Bp": ("http", "b.test", 8080),  # host only vs Ap
+        "Bs": ("https", "b.test", 443),  # host only vs As
+    }
+)
 DEFAULT_PORT = {"http": 80, "https": 443}
 STATUSES = [301, 302, 303, 307, 308]
 REASON = {200: "OK", 301: "Moved Permanently", 302: "Found", 303: "See Other", 307: "Temporary Redirect", 308: "Permanent Redirect"}
@@ -98,11 +111,12 @@ NONHTTP_LOCATIONS = ["ftp://b.test/p/h9", "mailto:someone@b.test", "javascript:a
 
 # (form, to): every way a step can point somewhere.  to=None: stays on the current origin.
 FOLLOW_KINDS = (
-    [("abs", o) for o in ORIGINS]
+    [("abs", o) for o in BASE_ORIGINS]
     + [("abs-cred", "A"), ("abs-cred", "B"), ("abs-frag", "B"), ("abs-upper", "A"), ("abs-defport", "A")]
     + [("rel-path", None), ("rel-abs-path", None), ("rel-query", None), ("rel-dotdot", None)]
     + [("scheme-rel", "Ap"), ("scheme-rel", "B")]
 )
+RANDOM_FOLLOW_KINDS = FOLLOW_KINDS + [("abs", o) for o in ORIGINS if o not in BASE_ORIGINS] + [("abs-defport", "As"), ("abs-cred", "Aps"), ("scheme-rel", "Bp")]
 TERMINAL_KINDS = (
     [("invalid", i) for i in range(len(INVALID_LOCATIONS))]
     + [("nonhttp", i) for i in range(len(NONHTTP_LOCATIONS))]
@@ -926,6 +940,28 @@ def systematic_cases(length):
                             yield i, {"script": [step_of(s1, k1, 1), step_of(s2, k2, 0), {"st": 200}], "method": method, "maxr": (2, 3, 10)[i % 3]}
 
 
+def origin_pair_cases():
+    """One redirect between every ordered pair of distinct origins of the world (so every single-component difference of
+    (scheme, host, port) in both directions, default and explicit port spellings) x status x every secret rotation."""
+    i = 0
+    for x in ORIGINS:
+        for y in ORIGINS:
+            if x == y:
+                continue
+            forms = ["abs"] + (["abs-defport"] if DEFAULT_PORT[ORIGINS[y][0]] == ORIGINS[y][2] else [])
+            for form in forms:
+                for si, status in enumerate(STATUSES):
+                    for ri, rot in enumerate(SECRET_ROT):
+                        i += 1
+                        yield i, {
+                            "start": x,
+                            "script": [step_of(status, (form, y), si), {"st": 200}],
+                            "method": METHODS[(si + ri) % len(METHODS)],
+                            "maxr": 10,
+                            "secrets": rot,
+                        }
+
+
 def fill(case, i, start="A"):
     bodies = BODY_FOR[case["method"]]
     case.setdefault("start", start)
@@ -948,7 +984,7 @@ def random_case(rng):
         if last and rng.random() < 0.25:
             kind = rng.choice(TERMINAL_KINDS)
         else:
-            kind = rng.choice(FOLLOW_KINDS)
+            kind = rng.choice(RANDOM_FOLLOW_KINDS)
             if rng.random() < 0.35:  # bias towards coming back (A->B->A) and staying
                 kind = rng.choice([("abs", "A"), ("abs", "A"), ("rel-path", None), ("abs", "B"), ("abs-cred", "A")])
         st = step_of(rng.choice(STATUSES), kind, rng.randint(0, 1))
@@ -960,7 +996,7 @@ def random_case(rng):
         script.append({"st": 200})
     method = rng.choice(METHODS + ["POST", "PUT"])
     case = {
-        "start": rng.choice(["A", "A", "A", "B", "Ap", "As", "S"]),
+        "start": rng.choice(["A", "A", "A", "B", "Ap", "As", "S"] + list(ORIGINS)),
         "dir0": rng.choice("pq"),
         "method": method if rng.random() < 0.9 else method.lower(),
         "body": rng.choice(BODY_FOR[method]),
@@ -980,6 +1016,8 @@ def random_case(rng):
 def shards(tier, seed):
     q = tier == "quick"
     out = [{"kind": "len1", "sub": 0, "start": "A"}, {"kind": "len1", "sub": 1, "start": "B"}]
+    for i in range(2):
+        out.append({"kind": "pairs", "sub": 50 + i, "part": i, "parts": 2})
     parts = 10 if q else 24
     for i in range(parts):
         out.append({"kind": "len2", "sub": 2 + i, "part": i, "parts": parts, "stride": 4 if q else 1})
@@ -999,6 +1037,16 @@ def run_shard(spec, rec):
                 if i % 300 == 0:
                     rec.sample(sample_of(case, obs, log))
             rec.set_exhaustive(f"chains of 1 redirect from {spec['start']}: status x method x Location kind x max_redirects{{1,10}}", True)
+        elif kind == "pairs":
+            for i, c in origin_pair_cases():
+                if i % spec["parts"] != spec["part"]:
+                    continue
+                case = fill(c, i)
+                v, obs, log = run_case(case, rec)
+                report(rec, case, v, obs, log)
+                if i % 700 == 0:
+                    rec.sample(sample_of(case, obs, log))
+            rec.set_exhaustive("1 redirect between every ordered pair of distinct origins x absolute spelling (default port omitted / explicit) x status x secret rotation", True)
         elif kind == "len2":
             stride = spec["stride"]
             off = spec["seed"] % stride
